@@ -20,8 +20,8 @@ C10_GEN_CFG = "users=2,quirks=1,stake=40," + BASE + REG      # GEN_TokenErc.cfg
 # every history mixes all message types, the pure function included
 TOKEN_RND = T([dict(n=10, len=30, procs=8)], [dict(n=60, len=40, procs=12)])
 
-C09_MC = T([dict(cfg="MC_Token.cfg", timeout=900), dict(cfg="MC_TokenId.cfg", timeout=900)],
-           [dict(cfg="MC_Token_big.cfg", timeout=3000), dict(cfg="MC_TokenId.cfg", timeout=900)])
+C09_MC = T([dict(cfg="MC_Token.cfg", timeout=900, heap="4g"), dict(cfg="MC_TokenId.cfg", timeout=900, heap="4g")],
+           [dict(cfg="MC_Token_big.cfg", timeout=3000, heap="4g"), dict(cfg="MC_TokenId.cfg", timeout=900, heap="4g")])
 C09_GEN = T([dict(cfg="GEN_Token.cfg", num=20, depth=16, seeds=6, driver_cfg=C09_GEN_CFG)],
             [dict(cfg="GEN_Token.cfg", num=60, depth=20, seeds=14, driver_cfg=C09_GEN_CFG)])
 # token_cover_*: scripted coverage suites — every antecedent in `required` is exercised
@@ -29,8 +29,8 @@ C09_GEN = T([dict(cfg="GEN_Token.cfg", num=20, depth=16, seeds=6, driver_cfg=C09
 C09_SCN = [dict(file="scenarios/token_F5.ndjson", cfg=C09_GEN_CFG),
            dict(file="scenarios/token_cover_c09.ndjson", cfg=C09_GEN_CFG)]
 
-C10_MC = T([dict(cfg="MC_TokenMath.cfg", timeout=900, workers=4), dict(cfg="MC_TokenErc.cfg", timeout=900)],
-           [dict(cfg="MC_TokenMath.cfg", timeout=900, workers=4), dict(cfg="MC_TokenErc_big.cfg", timeout=3000)])
+C10_MC = T([dict(cfg="MC_TokenMath.cfg", timeout=900, workers=4, heap="4g"), dict(cfg="MC_TokenErc.cfg", timeout=900, heap="4g")],
+           [dict(cfg="MC_TokenMath.cfg", timeout=900, workers=4, heap="4g"), dict(cfg="MC_TokenErc_big.cfg", timeout=3000, heap="4g")])
 C10_GEN = T([dict(cfg="GEN_TokenErc.cfg", num=20, depth=16, seeds=6, driver_cfg=C10_GEN_CFG),
              dict(cfg="GEN_TokenMath.cfg", mode="bfs", depth=401, seeds=1, driver_cfg="")],
             [dict(cfg="GEN_TokenErc.cfg", num=60, depth=20, seeds=14, driver_cfg=C10_GEN_CFG),
@@ -41,6 +41,11 @@ C10_SCN = [dict(file="scenarios/token_F6.ndjson", cfg="users=3,stake=40," + BASE
            dict(file="scenarios/token_cover_c10.ndjson", cfg=C10_GEN_CFG),
            dict(file="scenarios/token_cover_swap.ndjson",
                 cfg="users=3,stake=40," + BASE + ",regin=maa,regout=mbb,regrn=1,regrd=2")]
+
+# histories recorded (VERIF_RECORD_DIR) for the cross-module checks C11 / C12; the
+# random driver draws its own configuration; while recording it neither injects the
+# swap registry nor runs hook events (neither is part of the recorded inputs)
+RECORD = [dict(binary="token", n=T(3, 12), len=30, cfg="")]
 
 ASSUME = ["TLC 1.8, SANY, CommunityModules Json", "Go toolchain, cosmos-sdk x/bank, x/auth",
           "harness projection functions", "harness EVM ledger (harness/evmledger) standing in for an EVM module",
